@@ -4,11 +4,11 @@ from . import common as C
 
 MANIFEST = dict(
    technique="Lean 4 proof over a store model of the reference-typed schema state (Checks array with Go append semantics, Bag/Values/Shape maps, registry entry, any number of type-local reference slots, object Shape/PartialExceptions/RequiredKeys contents, member holders and option/item/entry list contents of unions, intersections, enums, containers, transform/pipe wrappers, default/prefault value references) + a translator (go/ast abstract interpreter over types/*.go, core/transform.go, typed by go/types: go list -export + gc importer + types.Check from source) that regenerates on every run the table of ALL chaining methods (route, appended checks, origin of every type-local reference field, receiver writes) over which the coverage theorem is re-proved by decide +kernel + history correspondence: every exported chaining method of every schema type is called by reflection and the model and the table row must predict what the call did",
-   text="c08_step / c08_hist / c08_hist_all (and c08x_* for the extended op classes refilter/access) prove that along every history of chaining calls (any receivers, sibling fan-outs, any append growth rule) no operation of an op class the code has writes a location that existed before the call, so every live schema keeps its observation and every result is a new schema; c08_full_holds is the full statement over those classes. table_all_covered (decide +kernel over Gen/MethodOps.lean, regenerated from the source) proves that EVERY exported chaining method of every schema type is built by a covered route (Clone + withInternals/newObjectInternals, struct copy, constructor, accessor), writes nothing rooted at its receiver and calls nothing on shared check objects; denote_ok / c08_table_step / c08_table_hist_all lift the frame theorems to every history made of rows of the table; c08n_step covers any number of type-local reference slots for the slot actions the rows list (slots_of_covered). c08o_step / c08o_behaviour / c08o_hist prove for object schemas with Shape/PartialExceptions/UnknownKeys/Catchall CONTENTS that Extend/SafeExtend/Merge/Pick/Omit/Partial/Required/Strict/Strip/Passthrough/WithCatchall leave every live schema's content, verdict on every input (objParse, transcribing validateObject) and JSON-Schema object part (objDoc) unchanged; extend_content … catchall_content / requiredKeys_content / required_is_required state what the result contains (RequiredKeys since /repo 75cf747). c08h_step / c08h_behaviour / c08h_hist / c08h_hist_behaviour prove the same for schemas that hold other schemas or value lists (Or/And results holding the receiver, Transform/Pipe wrappers, enum Extract/Exclude, tuple WithRest, slice/tuple/record size checks, Default/Prefault storing the caller's value): every live composite keeps its member holders and list CONTENTS, hence — its members evaluated recursively from their own observations through the identity table of the live schemas, to every nesting depth, for every oracle of the plain members (hAccept_congr: a verdict only consults the table below the composite's own identity) — the same verdict on every input and the same document structure; or_content … prefault_content state what each result holds. Legacy witnesses: today_partial_mutates_receiver / c08_today_false (Clone before 97c97c3), metaSelf_violates / metaSelf_row_violates (Meta() before 6ba76b8).",
-   note="No open finding: the 28 meta-returns-receiver classes were one defect, fixed in /repo 6ba76b8. The store model is a hand-written abstraction (observation = contents reachable from the schema; Parse/ToJSONSchema of non-object types are taken to be functions of it), tied to /repo by reflective snapshots (slice headers, map identities, contents) and behavioural fingerprints (31 probes, IsOptional/IsNilable, ToJSONSchema) after every call of ~1400 type×method pairs; the method table is produced by a translator that is typed by go/types but follows only package types and core.ZodTypeInternals (exported constructors are opaque; the holder-content histories tie what they build), validated per call against the op class, the number of appended checks and the per-field sharing the run shows; append capacities and 'result starts with a registry entry' are taken from the run as parameters; plain member schemas are oracles of objParse/hAccept (composite members are evaluated from their own observations); nil inputs, optional tuple items and result values (intersection merging of pointer-typed results) are outside hAccept; Struct/DiscriminatedUnion/Map/Set/Array contents are covered at identity level (c08n_step) and by the implementation-side comparison only; sync.Once-guarded cache fills (ZodLazy.innerType) are classed memo and not counted as changes. Trusted: Lean kernel, axioms propext/Classical.choice/Quot.sound, the Go harness, translator and comparer.",
+   text="WHAT THE MAIN THEOREMS CONCLUDE: equality of STORE OBSERVATIONS (obs: kind, flags, check-list contents, Bag/Values/Shape contents, registry entry, default value) — not yet 'same verdict on every input / same JSON Schema'. That clause is derived by a behaviour theorem for three families: objects (c08o_behaviour: objParse, objDoc), schemas holding other schemas or value lists (c08h_behaviour / c08h_hist_behaviour: hAccept, document structure) and primitives with checks (c08p_step / c08p_hist / c08p_hist_all: the Parse of a type-correct non-nil input IS C10's runChecksOn — Model/Checks.lean, tied to the code by C10 — over the schema's check list, which is an observed cell, so an unchanged list gives the same verdict, value and callback log on EVERY input, for every callback environment and every decoding of check ids). For every other kind (Struct, DiscriminatedUnion, Map, Set, Array, Lazy, Function, File; nil inputs of primitives, which C03 derives from the flags; the JSON Schema of non-object, non-holder schemas) the clause rests on the NAMED ASSUMPTION ObsDetermines (Proofs/C08Prims.lean): Parse and ToJSONSchema are functions of obs — c08_behaviour_of_bridge is its one-line consequence; the assumption is tied by the run only (31 probes, IsOptional/IsNilable and ToJSONSchema of every live schema re-taken after every call, on the implementation side). c08_step / c08_hist / c08_hist_all (and c08x_* for the extended op classes refilter/access) prove that along every history of chaining calls (any receivers, sibling fan-outs, any append growth rule) no operation of an op class the code has writes a location that existed before the call, so every live schema keeps its observation and every result is a new schema; c08_full_holds is the full statement over those classes. table_all_covered (decide +kernel over Gen/MethodOps.lean, regenerated from the source) proves that EVERY exported chaining method of every schema type is built by a covered route (Clone + withInternals/newObjectInternals, struct copy, constructor, accessor), writes nothing rooted at its receiver and calls nothing on shared check objects; denote_ok / c08_table_step / c08_table_hist_all lift the frame theorems to every history made of rows of the table; c08n_step covers any number of type-local reference slots for the slot actions the rows list (slots_of_covered). c08o_step / c08o_behaviour / c08o_hist prove for object schemas with Shape/PartialExceptions/UnknownKeys/Catchall CONTENTS that Extend/SafeExtend/Merge/Pick/Omit/Partial/Required/Strict/Strip/Passthrough/WithCatchall leave every live schema's content, verdict on every input (objParse, transcribing validateObject) and JSON-Schema object part (objDoc) unchanged; extend_content … catchall_content / requiredKeys_content / required_is_required state what the result contains (RequiredKeys since /repo 75cf747). c08h_step / c08h_behaviour / c08h_hist / c08h_hist_behaviour prove the same for schemas that hold other schemas or value lists (Or/And results holding the receiver, Transform/Pipe wrappers, enum Extract/Exclude, tuple WithRest, slice/tuple/record size checks, Default/Prefault storing the caller's value): every live composite keeps its member holders and list CONTENTS, hence — its members evaluated recursively from their own observations through the identity table of the live schemas, to every nesting depth, for every oracle of the plain members (hAccept_congr: a verdict only consults the table below the composite's own identity) — the same verdict on every input and the same document structure; or_content … prefault_content state what each result holds. Legacy witnesses: today_partial_mutates_receiver / c08_today_false (Clone before 97c97c3), metaSelf_violates / metaSelf_row_violates (Meta() before 6ba76b8).",
+   note="Round 4c (audit A M9/LOW): the bridge from observation equality to behaviour is stated (text) and named (ObsDetermines); primitives with checks got their behaviour theorem (c08p_*); the driver computes the verdict of accessor steps (classes access / alias: applyXOp .access, then the changed set from the observations) instead of printing the constant 1:. No open finding: the 28 meta-returns-receiver classes were one defect, fixed in /repo 6ba76b8. The store model is a hand-written abstraction (observation = contents reachable from the schema; Parse/ToJSONSchema of non-object types are taken to be functions of it), tied to /repo by reflective snapshots (slice headers, map identities, contents) and behavioural fingerprints (31 probes, IsOptional/IsNilable, ToJSONSchema) after every call of ~1400 type×method pairs; the method table is produced by a translator that is typed by go/types but follows only package types and core.ZodTypeInternals (exported constructors are opaque; the holder-content histories tie what they build), validated per call against the op class, the number of appended checks and the per-field sharing the run shows; append capacities and 'result starts with a registry entry' are taken from the run as parameters; plain member schemas are oracles of objParse/hAccept (composite members are evaluated from their own observations); nil inputs, optional tuple items and result values (intersection merging of pointer-typed results) are outside hAccept; Struct/DiscriminatedUnion/Map/Set/Array contents are covered at identity level (c08n_step) and by the implementation-side comparison only; sync.Once-guarded cache fills (ZodLazy.innerType) are classed memo and not counted as changes. Trusted: Lean kernel, axioms propext/Classical.choice/Quot.sound, the Go harness, translator and comparer.",
    design="DESIGN.md §3.4, §5 C08; notes/C08.md")
 
-MODULES = ["Gozod.Proofs.C08", "Gozod.Proofs.C08Methods", "Gozod.Proofs.C08Objects", "Gozod.Proofs.C08Holders"]
+MODULES = ["Gozod.Proofs.C08", "Gozod.Proofs.C08Methods", "Gozod.Proofs.C08Objects", "Gozod.Proofs.C08Holders", "Gozod.Proofs.C08Prims"]
 THEOREMS = [
     "Gozod.C08.c08_step", "Gozod.C08.c08_hist", "Gozod.C08.c08_hist_all", "Gozod.C08.c08_fresh",
     "Gozod.C08.applyOp_spec", "Gozod.C08.clone_spec", "Gozod.C08.appendAll_spec",
@@ -37,6 +37,9 @@ THEOREMS = [
     "Gozod.C08.or_content", "Gozod.C08.and_content", "Gozod.C08.transform_content", "Gozod.C08.pipe_content",
     "Gozod.C08.extract_content", "Gozod.C08.exclude_content", "Gozod.C08.withRest_content", "Gozod.C08.default_content",
     "Gozod.C08.prefault_content", "Gozod.C08.enum_verdict", "Gozod.C08.union_verdict", "Gozod.C08.inter_verdict", "Gozod.C08.invH_base",
+    # round 4c: primitives with checks — the verdict is C10's runChecksOn over the observed check list; the bridge for the other kinds, named
+    "Gozod.C08.checkList_of_obs", "Gozod.C08.primRun_of_obs", "Gozod.C08.c08p_step", "Gozod.C08.c08p_hist", "Gozod.C08.c08p_hist_all",
+    "Gozod.C08.c08_behaviour_of_bridge", "Gozod.C08.primRun_obsDetermines",
 ]
 
 
@@ -193,7 +196,7 @@ def run(res):
         "history H = holder-content histories (9 base kinds over 3 plain members and the history's own schemas as members: Or/And/Transform/Pipe/Extract/Exclude/Min/Max/Length/WithRest/Default/Prefault/modifiers/accessors: members held, list contents, 18 verdicts and document structure per live schema). "
         "distinct = distinct abstract histories (op lines).")
     res.assumptions += [
-        "a schema's Parse verdicts/results and its JSON Schema are functions of the contents the store model observes (validated by the fingerprints staying equal whenever the snapshot content does)",
+        "ObsDetermines (Proofs/C08Prims.lean), the bridge from the theorems' conclusion to the property's clause: a schema's Parse verdicts/results and its JSON Schema are functions of the contents the store model observes. PROVED for objects (c08o_behaviour), holders (c08h_behaviour) and primitives with checks on type-correct non-nil inputs (c08p_*: C10's runChecksOn over the observed check list); ASSUMED for Struct, DiscriminatedUnion, Map, Set, Array, Lazy, Function, File, for nil inputs of primitives (C03: a function of flags/default, which obs holds) and for the JSON Schema of non-object, non-holder schemas — there validated by the run only (fingerprints staying equal whenever the snapshot content does)",
         "the op class the run reports per call (derive/copymeta/bagwrite/rebuild/wrap/refilter/access) comes from behaviour and a small name set; it must be admitted by the method's row of the table regenerated from the source (a mismatch is a broken tie)",
         "the translator harness/opsgen (typed by go/types) treats exported constructors and calls into other packages as opaque; plain member schemas are oracles of the object and holder models",
         "a composite schema only holds schemas that existed when it was built (hAccept looks members up below the composite's own identity; ZodLazy cycles are outside the holder model)",
